@@ -326,6 +326,17 @@ func c15Run(act ref.Op, x *ref.T, form int, down int) core.Verdict {
 		if len(w.V)%2 == 1 {
 			w.V[len(w.V)-1] = 0
 		}
+	case 4, 5: // a single non-zero upstream entry (the last one); an all-negative upstream
+		prog, root = withWeighting(prog, root, 23)
+		w := prog.Leaves[len(prog.Leaves)-1]
+		for i := range w.V {
+			if down == 4 && i != len(w.V)-1 {
+				w.V[i] = 0
+			}
+			if down == 5 {
+				w.V[i] = -math.Abs(w.V[i])
+			}
+		}
 	}
 	v := gradCase(prog, root, gradOpts{allowKF: true, tieNode: actNode + 1})
 	if !v.OK && !v.Skip {
@@ -363,7 +374,7 @@ func checkC15(c *core.Ctx) {
 		for _, act := range c15Acts(len(s)) {
 			for vi := 0; vi < 4; vi++ {
 				for form := 0; form < nUpstreamForms; form++ {
-					for down := 0; down < 4; down++ {
+					for down := 0; down < 6; down++ {
 						if down == 3 && (form > 2 || vi > 1) {
 							continue
 						}
